@@ -157,3 +157,91 @@ def compare(base, atoms, ret, case, inp_ir, out_ir, policy):
                               dict(rf, field="ret.default"), fail="default",
                               got=list(rout[2]) if rout[2] != rm.ABSENT else rout[2]))
     return sites
+
+
+# ----------------------------------------------------------------------------- generic round-trip check
+class OptSpace(core.Space):
+    """IR space x list of option dicts (options vary fastest)."""
+
+    def __init__(self, irs, opts, flt=None):
+        self.irs, self.opts = irs, opts
+
+    def __len__(self):
+        return len(self.irs) * len(self.opts)
+
+    def __getitem__(self, i):
+        j, o = divmod(i, len(self.opts))
+        c = dict(self.irs[j])
+        c["opts"] = self.opts[o]
+        return c
+
+    def describe(self):
+        return {"irs": self.irs.describe(), "option_combinations": len(self.opts), "options": self.opts[:40],
+                "size": len(self)}
+
+
+class Filtered(core.Space):
+    """Sub-space of the cases satisfying a predicate (materialised index list; order preserved)."""
+
+    def __init__(self, base, pred, note):
+        self.base, self.note = base, note
+        self.idx = [i for i in range(len(base)) if pred(base[i])]
+
+    def __len__(self):
+        return len(self.idx)
+
+    def __getitem__(self, i):
+        return self.base[self.idx[i]]
+
+    def describe(self):
+        d = dict(self.base.describe())
+        d["filter"] = self.note
+        d["size_after_filter"] = len(self.idx)
+        return d
+
+
+class RoundTrip(core.Check):
+    """emit_kind -> parse_kind -> compare, for one code kind with an option list."""
+
+    kind = None
+    policy = {}
+
+    def option_list(self):
+        raise NotImplementedError
+
+    def ir_filter(self):
+        return None
+
+    def space(self):
+        irs = al.ir_space(self.tier)
+        flt = self.ir_filter()
+        if flt is not None:
+            irs = Filtered(irs, flt[0], flt[1])
+        return OptSpace(irs, self.option_list())
+
+    def base_facts(self, opts):
+        return dict(("o." + k, v) for k, v in sorted(opts.items()))
+
+    def extra_sites(self, case, atoms, ret, text, back, base):
+        return []
+
+    def run_case(self, case):
+        atoms, ret, ir = al.case_ir(case)
+        opts = case["opts"]
+        kind = opts.get("kind", self.kind)
+        base = self.base_facts(opts)
+        cf = dict(base, **case_facts(case, atoms, ret))
+        try:
+            text = emit_kind(kind, ir, opts)
+        except Exception as e:
+            return [site(False, dict(cf, field="emit"), fail="emit_raise", **core.exc_obs(e))], None, "emit-raise"
+        nontrivial = text if (atoms or ret is not None or case["kwargs"]) else None
+        try:
+            back = parse_kind(kind, text)
+        except Exception as e:
+            return [site(False, dict(cf, field="parse"), fail="parse_raise", **core.exc_obs(e))], nontrivial, "parse-raise"
+        sites = [site(True, dict(cf, field="parse"))]
+        _, _, ir0 = al.case_ir(case)
+        sites += compare(base, atoms, ret, case, ir0, back, self.policy)
+        sites += self.extra_sites(case, atoms, ret, text, back, dict(cf))
+        return sites, nontrivial, [text, [s["ok"] for s in sites]]
